@@ -421,6 +421,8 @@ def run_sort_key_lossy(prog, tier, repo, crates=None, floor=1):
                      'entry\'s unique part by a lossy transformation (ties would be left in hash order, which changes from run to run)')
     n = 0
     unclassified = set()
+    ot_local = None
+    taints = {}
     for b in sorted(prog.bodies.values(), key=lambda x: x.name):
         if not b.crate.startswith('samlang') or '::tests' in b.name or (crates and b.crate not in crates):
             continue
@@ -433,7 +435,23 @@ def run_sort_key_lossy(prog, tier, repo, crates=None, floor=1):
                 continue
             recv = strip_refs(b.locals[t[3][0][1].local])
             if 'std::collections::hash_map::' not in recv.s and 'std::collections::hash_set::' not in recv.s:
-                continue
+                # an in-place sort of a vector that was collected from a hash iteration (`let mut v = map.into_iter().collect();
+                # v.sort_by_cached_key(..)`): the receiver carries the hash order according to the ORDER-TAINT analysis
+                if ot_local is None:
+                    ot_local = OrderTaint(prog)
+                taint = taints.get(b.id)
+                if taint is None:
+                    taint = taints[b.id] = ot_local.analyse(b)
+                r0, _p0 = operand_root(b, t[3][0])
+                for _d in range(4):
+                    sd0 = single_def(b, r0) if r0 is not None else None
+                    if sd0 and sd0[1] == 'term' and sd0[2][3] and (callee(sd0[2])[1] or '').split('::')[-1] in (
+                            'deref_mut', 'deref', 'as_mut_slice', 'as_mut', 'borrow_mut', 'as_slice'):
+                        r0, _p0 = operand_root(b, sd0[2][3][0])
+                    else:
+                        break
+                if not (r0 in taint or t[3][0][1].local in taint):
+                    continue
             ct = strip_refs(b.locals[t[3][1][1].local])
             if ct.k != 'closure' or ct.id not in prog.bodies:
                 continue
